@@ -20,7 +20,11 @@ CLAUSES = (
     'unchanged, and are stored together with their base point; the cycle-count '
     'window agrees with the slice that picks the limit; recomputation is '
     'triggered by future-offset changes, reload, removal and every main-loop '
-    'iteration before release. Not decided: that the computed point equals '
+    'iteration before release; the pool-wide future offset is recomputed '
+    'from get_tasks() after (never before) a task with such an offset is put '
+    'into or deleted from active_tasks, and every change of membership sets '
+    'active_tasks_changed before any method that reads the cached pool list '
+    'is called. Not decided: that the computed point equals '
     'the n-th recurrence point (sequence arithmetic), deadlock freedom.')
 
 TP = 'task_pool'
@@ -32,6 +36,8 @@ def straight_line(c, a, b):
 
 
 def check(c):
+    from rules._shared import pool_cache_rules
+    pool_cache_rules(c, 'C04.pool-cache')
     # ---- every release site
     sites = c.find(None, '_.state_reset(*_, is_runahead=False)')
     table = [
@@ -221,6 +227,54 @@ def check(c):
             'set_max_future_offset', len(rc), 1)
     for n in rc:
         c.guard_only('C04.recompute', n, ['!(max_offset == orig)'], smf)
+    # "the largest future-trigger offset among pooled tasks": the maximum is
+    # taken over the pool as it is *after* the membership change -- it is
+    # recomputed from get_tasks() right after a task with such an offset was
+    # put into, or taken out of, active_tasks (before, the task that leaves
+    # would still be counted and the limit would keep its offset for ever)
+    scans = [lp for lp in ast.walk(smf.node) if isinstance(
+        lp, (ast.For, ast.comprehension)) and norm(lp.iter) ==
+        'self.get_tasks()']
+    c.floor('C04.future-offset', 'set_max_future_offset scans '
+            'self.get_tasks()', len(scans), 1)
+    c.floor('C04.future-offset', 'self.max_future_offset = max_offset',
+            len([n for n in ast.walk(smf.node) if isinstance(n, ast.Assign)
+                 and norm(n.targets[0]) == 'self.max_future_offset'
+                 and norm(n.value) == 'max_offset']), 1)
+    from rules._shared import pool_membership_change
+    changes = pool_membership_change(c)
+
+    def joins(s):
+        return isinstance(s, ast.Assign) and changes(s)
+
+    def leaves(s):
+        return isinstance(s, ast.Delete) and changes(s)
+    for fq, change, what in (
+            (f'{TP}:TaskPool.add_to_pool', joins, 'the task is put into '
+             'active_tasks'),
+            (f'{TP}:TaskPool.remove', leaves, 'the task is deleted from '
+             'active_tasks')):
+        f = c.func(*fq.split(':'))
+        calls = c.find(f, 'self.set_max_future_offset()')
+        c.floor('C04.future-offset', f'set_max_future_offset() in {fq}',
+                len(calls), 1)
+        for n in calls:
+            c.pre('C04.future-offset', f, n, change, what)
+            c.guard_only('C04.future-offset', n, [
+                '!(itask.tdef.max_future_prereq_offset is None)',
+                '!(itask.identity in _)'], f)
+        muts = [s for s in ast.walk(f.node) if change(s)]
+        c.floor('C04.future-offset', f'{what} ({fq})', len(muts), 1)
+        tests = [i.test for i in ast.walk(f.node) if isinstance(i, ast.If)
+                 and any(x in calls for b in i.body for x in ast.walk(b))]
+        for s in muts:
+            # ... and on every normal path from the change the offset test
+            # (and, under it, the recomputation) is reached
+            c.post('C04.future-offset', f, s, lambda n: any(
+                n is t for t in tests), 'the future-offset recomputation')
+    c.who_calls('C04.future-offset', 'set_max_future_offset', {
+        f'{TP}:TaskPool.add_to_pool': [], f'{TP}:TaskPool.remove': []},
+        floor=2)
     rl = c.func('commands', 'reload_workflow')
     c.floor('C04.recompute', 'compute_runahead(force=True) on reload',
             len(c.find(rl, '_.pool.compute_runahead(force=True)')), 1)
@@ -247,6 +301,59 @@ def check(c):
 
 
 VARIANTS = [
+    ('flag-after-offset-scan', 'cylc/flow/task_pool.py',
+     '''        self.active_tasks[itask.point][itask.identity] = itask
+        self.active_tasks_changed = True
+        LOG.debug(f"[{itask}] added to the n=0 window")
+
+        self.create_data_store_elements(itask)
+
+        if itask.tdef.max_future_prereq_offset is not None:
+            # (Must do this once added to the pool).
+            self.set_max_future_offset()
+''', '''        self.active_tasks[itask.point][itask.identity] = itask
+        LOG.debug(f"[{itask}] added to the n=0 window")
+
+        self.create_data_store_elements(itask)
+
+        if itask.tdef.max_future_prereq_offset is not None:
+            # (Must do this once added to the pool).
+            self.set_max_future_offset()
+        self.active_tasks_changed = True
+''', 'C04.pool-cache'),
+    ('removal-keeps-cache', 'cylc/flow/task_pool.py',
+     '''            self.tasks_removed = True
+            self.active_tasks_changed = True
+''', '''            self.tasks_removed = True
+''', 'C04.pool-cache'),
+    ('offset-before-removal', 'cylc/flow/task_pool.py',
+     '''        msg = f"removed from the n=0 window: {reason or 'completed'}"
+''', '''        if itask.tdef.max_future_prereq_offset is not None:
+            self.set_max_future_offset()
+        msg = f"removed from the n=0 window: {reason or 'completed'}"
+''', 'C04.future-offset'),
+    ('offset-not-on-removal', 'cylc/flow/task_pool.py',
+     '''            self.task_queue_mgr.remove_task(itask)
+            if itask.tdef.max_future_prereq_offset is not None:
+                self.set_max_future_offset()
+''', '''            self.task_queue_mgr.remove_task(itask)
+''', 'C04.future-offset'),
+    ('offset-before-add', 'cylc/flow/task_pool.py',
+     '''        self.active_tasks[itask.point][itask.identity] = itask
+        self.active_tasks_changed = True
+''', '''        if itask.tdef.max_future_prereq_offset is not None:
+            self.set_max_future_offset()
+        self.active_tasks[itask.point][itask.identity] = itask
+        self.active_tasks_changed = True
+''', 'C04.future-offset'),
+    ('offset-over-config', 'cylc/flow/task_pool.py',
+     '''        for itask in self.get_tasks():
+            if (
+                itask.tdef.max_future_prereq_offset is not None''',
+     '''        for itask in self.get_tasks()[:-1]:
+            if (
+                itask.tdef.max_future_prereq_offset is not None''',
+     'C04.future-offset'),
     ('release-lt', 'cylc/flow/task_pool.py',
      '            if point <= self.runahead_limit_point\n',
      '            if point < self.runahead_limit_point\n',
